@@ -412,6 +412,117 @@ def gen_entry_points(loader, check, replay_on=True):
                          and "my_fn" in t.fields["sub_routines"])
 
 
+# ------------------------------------------------------------------------------------------ two instances own disjoint state
+class FileAbs(NativeAbs):
+    def __init__(self, path):
+        self.path = path
+
+    def getattr(self, it, name):
+        if name == "readlines":
+            return _K(["GRAMMAR"])
+        raise Unsupported(f"file.{name}")
+
+
+class _K(NativeAbs):
+    def __init__(self, v):
+        self.v = v
+
+    def call(self, it, args, kwargs):
+        return self.v
+
+
+SAMPLE_JSON = {
+    "HEXAGON_NOPED_INSNS_JSON": lambda: {"noped": ["A2_nop"]},
+    "HEXAGON_QEMU_RZIL_MACROS_JSON": lambda: {"macros": {"bswap32": {"return_type": "uint32_t", "params": ["uint32_t"], "rzil_macro": "BSWAP32"}}},
+    "HEXAGON_SUB_ROUTINES_JSON": lambda: {"sub_routines": {"clz32": {"return_type": "uint32_t", "params": ["uint32_t t"], "code": "{ return t; }"}}},
+}
+
+
+def mutable_containers(root):
+    """ids of all mutable containers / heap records reachable from root (lists, dicts, sets, objects)"""
+    out = {}
+    seen = set()
+
+    def walk(v, path):
+        if isinstance(v, Obj):
+            if v.oid in seen:
+                return
+            seen.add(v.oid)
+            out[("obj", v.oid)] = (path, v)
+            for k, x in v.fields.items():
+                walk(x, f"{path}.{k}")
+        elif isinstance(v, (list, set)):
+            if id(v) in seen:
+                return
+            seen.add(id(v))
+            out[("c", id(v))] = (path, v)
+            for i, x in enumerate(v):
+                walk(x, f"{path}[{i}]")
+        elif isinstance(v, dict):
+            if id(v) in seen:
+                return
+            seen.add(id(v))
+            out[("c", id(v))] = (path, v)
+            for k, x in v.items():
+                walk(x, f"{path}[{k!r}]")
+        elif isinstance(v, tuple):
+            for i, x in enumerate(v):
+                walk(x, f"{path}[{i}]")
+    walk(root, "self")
+    return out
+
+
+def gen_two_instances(loader, check, replay_on=True):
+    """Compiler.__init__ run twice in one process: the two instances share no mutable state."""
+    Cm = loader.load("rzilcompiler.Compiler")
+    Comp = Cm.globals["Compiler"]
+    for m in ("__init__", "set_lark_parser", "set_extension", "set_il_op_transformer", "set_preprocessor", "add_noped_insns", "add_macros",
+              "add_sub_routines", "add_macro_to_transformer", "add_sub_routine", "compile_sub_routine"):
+        if m in Comp.methods:
+            check.under_contract(loader, Comp.methods[m])
+    check.instances_declared += 1
+    ArchEnum = loader.load("rzilcompiler.ArchEnum").globals["ArchEnum"]
+
+    def with_hook(it, s, env):
+        import ast as _ast
+        item = s.items[0]
+        call = item.context_expr
+        if not (isinstance(call, _ast.Call) and isinstance(call.func, _ast.Name) and call.func.id == "open"):
+            raise Unsupported("with statement other than open()")
+        path = it.eval(call.args[0], env)
+        env.vars[item.optional_vars.id] = FileAbs(path)
+        it.exec_block(s.body, env)
+
+    def setup(it):
+        it.ctx.with_hook = with_hook
+        it.ctx.contracts["rzilcompiler.Configuration.Conf.get_path"] = lambda it_, f, a, k: ("PATH", a[0].name)
+        it.ctx.contracts["json.load"] = lambda it_, f, a, k: SAMPLE_JSON[a[0].path[1]]()
+        it.ctx.contracts["lark.lark.Lark"] = lambda it_, f, a, k: ParserAbs(may_raise=False)
+        it.ctx.contracts["Transformer.transform"] = lambda it_, f, a, k: "return NOP();"
+        return None
+
+    def run(it, st):
+        c1 = it.call(Comp, [ArchEnum.HEXAGON], {})
+        c2 = it.call(Comp, [ArchEnum.HEXAGON], {})
+        return c1, c2
+    ex = explore(loader, setup, run)
+    check.absorb(ex, "Compiler() twice")
+    if ex.paths:
+        check.instances_generated += 1
+    for i, p in enumerate(ex.paths):
+        pi = f"two instances path={i}"
+        check.ob("Compiler.__init__#total", pi, p.ctx.pc, p.outcome == "return", detail="" if p.outcome == "return" else f"raises {p.value!r}")
+        if p.outcome != "return":
+            continue
+        c1, c2 = p.value
+        m1, m2 = mutable_containers(c1), mutable_containers(c2)
+        shared = [f"{m1[k][0]}  ==  {m2[k][0]}" for k in m1 if k in m2]
+        rp = ("c14.two_instances", lambda mdl: {}) if replay_on else None
+        check.ob("Compiler.__init__#two-instances-share-no-mutable-state", pi, p.ctx.pc, not shared, replay=rp,
+                 detail="shared between two Compiler instances: " + "; ".join(shared[:4]))
+        check.ob("Compiler.__init__#resources-loaded", pi, p.ctx.pc, "bswap32" in c1.fields["transformer"].fields["macros"] and "clz32" in c1.fields["sub_routines"])
+
+
 # ------------------------------------------------------------------------------------------ shared resources
 def gen_resources(loader, check, replay_on=True):
     """Writes to resource objects during a transformation must be unobservable."""
@@ -522,6 +633,32 @@ def replay_shared(a):
     return same, f"two instances of {a['cls']}: .{a['attr']} is the same object: {same}"
 
 
+@replay.register("c14.two_instances")
+def replay_two_instances(a):
+    from rzilcompiler.Compiler import Compiler
+    from rzilcompiler.ArchEnum import ArchEnum
+    import io
+    import contextlib
+    with contextlib.redirect_stdout(io.StringIO()):
+        x, y = Compiler(ArchEnum.HEXAGON), Compiler(ArchEnum.HEXAGON)
+    shared = []
+    for path, get in (("sub_routines", lambda c: c.sub_routines), ("transformer.macros", lambda c: c.transformer.macros),
+                      ("transformer.sub_routines", lambda c: c.transformer.sub_routines), ("compiled_insns", lambda c: c.compiled_insns),
+                      ("parsed_insns", lambda c: c.parsed_insns), ("preprocessor.behaviors", lambda c: c.preprocessor.behaviors),
+                      ("transformer.parameters", lambda c: c.transformer.parameters)):
+        if get(x) is get(y):
+            shared.append(path)
+    for k in x.transformer.macros:
+        if x.transformer.macros[k] is y.transformer.macros.get(k):
+            shared.append(f"macro object {k}")
+            break
+    for k in x.sub_routines:
+        if x.sub_routines[k] is y.sub_routines.get(k):
+            shared.append(f"sub-routine object {k}")
+            break
+    return bool(shared), f"two Compiler instances share: {shared}"
+
+
 @replay.register("c14.compile_c_stmt")
 def replay_compile_c_stmt(a):
     from rzilcompiler.Compiler import Compiler
@@ -529,12 +666,12 @@ def replay_compile_c_stmt(a):
     c = Compiler(ArchEnum.HEXAGON)
     ref = c.compile_c_stmt("{ RdV = 1; }")
     try:
-        c.compile_c_stmt("{ RdV = RsV + unknown_fn(RtV); }")
+        c.compile_c_stmt("{ RdV = siV + RsV++; RdV = RsV + unknown_fn(RtV); }")
         return None, "failing statement did not fail"
     except Exception as e:
         exc = type(e).__name__
     h = c.transformer.il_ops_holder
-    left = list(h.read_ops) + list(h.exec_ops) + list(h.write_ops)
+    left = list(h.read_ops) + list(h.exec_ops) + list(h.write_ops) + list(h.hybrid_effect_dict) + [str(e) for e in c.transformer.imm_set_effect_list]
     again = c.compile_c_stmt("{ RdV = 1; }")
     return again != ref or bool(left), f"after a statement that raised {exc}: holder keeps {left}; recompiling '{{ RdV = 1; }}' gives identical text: {again == ref}"
 
@@ -562,11 +699,12 @@ def replay_reset(a):
 
 # ------------------------------------------------------------------------------------------
 def gen_task(loader, check, what, replay_on=True):
-    {"inventory": gen_inventory, "reset": gen_reset, "entry": gen_entry_points, "resources": gen_resources}[what](loader, check, replay_on)
+    {"inventory": gen_inventory, "reset": gen_reset, "entry": gen_entry_points, "resources": gen_resources,
+     "two_instances": gen_two_instances}[what](loader, check, replay_on)
 
 
 def generate_reduced(loader, check):
-    for w in ("inventory", "reset", "entry", "resources"):
+    for w in ("inventory", "reset", "entry", "resources", "two_instances"):
         gen_task(loader, check, w, False)
 
 
@@ -582,7 +720,7 @@ def run(check: Check):
     check.assume("callbacks write only per-behaviour state and the two resource objects covered by the two-state obligations "
                  "(Parameter.reads, SubRoutine return-type group); frames of the individual callbacks are the #modifies "
                  "obligations of C02/C03")
-    check.run_parallel("contracts.c14", "gen_task", [{"what": w} for w in ("inventory", "reset", "entry", "resources")], workers=WORKERS)
+    check.run_parallel("contracts.c14", "gen_task", [{"what": w} for w in ("inventory", "reset", "entry", "resources", "two_instances")], workers=WORKERS)
     if check.undecided:
         pass
     run_mutants(check, MUTANTS, "contracts.c14", "generate_reduced")
